@@ -14,6 +14,8 @@ def run(patch):
     tmp = tempfile.mkdtemp(prefix='seedrun.')
     try:
         shutil.copytree('/repo/supvisors', tmp + '/supvisors', ignore=shutil.ignore_patterns('__pycache__'))
+        os.makedirs(tmp + '/docs')
+        shutil.copy('/repo/docs/configuration.rst', tmp + '/docs/configuration.rst')
         r = subprocess.run(['patch', '-p1', '-s', '--no-backup-if-mismatch', '-i', str(patch)], cwd=tmp, capture_output=True, text=True)
         if r.returncode != 0:
             return patch, 'PATCH-FAILED ' + (r.stdout + r.stderr).strip()[:200], {}
